@@ -11,6 +11,13 @@ CLAIMED = {
  },
 }
 
+CLAIMED["C06"] = {
+  "text": "Seeded search over whole-run histories with fault injection: first life (optionally aborted by an exception of a seed-chosen kind raised inside a seed-chosen interface at a seed-chosen hook/cycle/node/iteration), optional restart from a seed-chosen node of the file left behind (with its own optional abort), then a post-mortem reader. The model is a log of acknowledged writes (content hash of the HDF5 group, sentinel of every object by serial number, every location). Oracles on the file in the working directory: opens; completion flag; listing == log (multiset, chronological, hasTimeStep); every group content-identical to its acknowledgement; loads return the sentinels of that write; duplicate writes refused; history by identity and by location == log after shuffles; merge == groups before the restart point, unchanged, source untouched; split == requested steps renumbered, backup identical; error snapshot holds the state at the failure. Sampling, not proof.",
+  "design_ref": "DESIGN.md §3.4",
+  "note": "Trusted: the write-log observer (wraps Database.writeToDB to see acknowledgements), h5py/HDF5 (I/O in C: no torn writes inside the file), SimOS latency below armi's own time-outs. Single failure per life; failures are exceptions that run the error hooks, not kill -9.",
+  "technique": "deterministic simulation with fault injection (abort/restart at seeded crash points, lagging mv/cp, clock jumps); history checked against a write-log reference model",
+}
+
 NA = {
  "C07": "pure function of (grid, index): no event order, clock, I/O or fault to simulate; exhaustive enumeration over N rings is the right tool, not simulation (DESIGN.md §6)",
  "C08": "pure functions of (grid, cell, k) and of a block's contents; rotations appear only as workload in the simulated runs (DESIGN.md §6)",
@@ -22,7 +29,8 @@ NA = {
  "C19": "static tables; exhaustive enumeration, not simulation (DESIGN.md §6)",
  "C20": "function of (block set, options); no schedule, fault or history (DESIGN.md §6)",
 }
-PENDING = {'C01': 'check not built yet in this session (claimed in DESIGN.md; will move to checks when its oracle runs clean)', 'C02': 'check not built yet in this session (claimed in DESIGN.md; will move to checks when its oracle runs clean)', 'C03': 'check not built yet in this session (claimed in DESIGN.md; will move to checks when its oracle runs clean)', 'C04': 'check not built yet in this session (claimed in DESIGN.md; will move to checks when its oracle runs clean)', 'C05': 'check not built yet in this session (claimed in DESIGN.md; will move to checks when its oracle runs clean)', 'C06': 'check not built yet in this session (claimed in DESIGN.md; will move to checks when its oracle runs clean)', 'C12': 'check not built yet in this session (claimed in DESIGN.md; will move to checks when its oracle runs clean)', 'C13': 'check not built yet in this session (claimed in DESIGN.md; will move to checks when its oracle runs clean)', 'C14': 'check not built yet in this session (claimed in DESIGN.md; will move to checks when its oracle runs clean)', 'C16': 'check not built yet in this session (claimed in DESIGN.md; will move to checks when its oracle runs clean)'}
+PENDING_IDS = ["C01", "C02", "C03", "C04", "C05", "C12", "C13", "C14", "C16"]
+PENDING = {p: "check not built yet in this session (claimed in DESIGN.md; will move to checks when its oracle runs clean)" for p in PENDING_IDS if p not in CLAIMED}
 
 def main():
     checks = []
